@@ -59,6 +59,7 @@ const (
 	StmtExecute
 	StmtDeallocate
 	StmtKill
+	StmtLoad
 )
 const (
 	eofChar = 0x100
@@ -130,6 +131,8 @@ func Preview(sql string) int {
 		return StmtExplain
 	case "analyze", "describe", "desc", "repair", "optimize":
 		return StmtOther
+	case "load":
+		return StmtLoad
 	case "release":
 		return StmtRelease
 	case "rollback":
